@@ -337,7 +337,7 @@ static void c06_ctl(const op_t *op, reg *r, int slot) {
 		reg_create(r, (int)item_get(it, "kind", 0) % RK_NKINDS, (int)item_get(it, "thr", 0) % (PW->n + 1), it);
 		if (sim_violated() || !r->created) return;
 		if (r->kind == RK_PROC) { fl = 0; ff = 0; data = 0; }
-		if (r->kind == RK_TIMER && r->relaxed) { r->thr = 0; r->relaxed = 0; } /* timers live on a real thread here */
+		if (r->kind == RK_TIMER && r->relaxed && !item_get(it, "pvtt", 0)) { r->thr = 0; r->relaxed = 0; } /* most timers live on a real thread; "pvtt": on the shared virtual thread */
 		if (r->kind != RK_TIMER) { if (is_read_kind(r->kind) || is_write_kind(r->kind)) ff &= TP_FF_RW_MASK; }
 		if (r->kind == RK_TIMER && (ff & TP_FF_T_ABSTIME)) data += (sim_realtime_offset() + sim_now()) / unit_ns(ff);
 		/* the registration may fire before the call returns (it is live as soon as it is installed) */
@@ -536,7 +536,8 @@ static void final_del_cb(tpt_p tpt, void *udata) {
 	reg *r = udata;
 	(void)tpt;
 	if (r->u.tpdata != 0) tpt_ev_del_args1(TP_EV_TIMER, &r->u);
-	r->registered = 0; r->enabled = 0; r->late_allowed = 0;
+	r->registered = 0; r->enabled = 0;
+	r->late_allowed = (r->relaxed && PW->n > 1) ? 2 * PW->n : 0;   /* another worker may already hold an expiry of a virtual-thread timer */
 }
 
 static void *c06_actor(void *arg) {
@@ -597,7 +598,7 @@ static void c06_gen(plan_t *p, rng_t *r, int tier) {
 		item_set(&op->it, "kind", kind);
 		item_set(&op->it, "thr", rng_chance(r, 120) ? n : (long long)rng_below(r, (uint64_t)n));
 		item_set(&op->it, "own", rng_chance(r, 500));
-		if (kind == RK_TIMER) gen_timer_args(&op->it, r);
+		if (kind == RK_TIMER) { gen_timer_args(&op->it, r); item_set(&op->it, "pvtt", rng_chance(r, 500)); }
 		else {
 			item_set(&op->it, "fl", fls[rng_below(r, 4)]);
 			item_set(&op->it, "ff", rng_chance(r, 150) ? TP_FF_RW_LOWAT : 0);
